@@ -15,6 +15,7 @@ import ast
 import json
 import os
 import random
+import re
 import shutil
 import subprocess
 import tempfile
@@ -254,6 +255,60 @@ class Texts(object):
                             out.setdefault(a.attr, []).append(a.lineno)
         return out
 
+    def _star_target(self, rel, st):
+        if st.level:
+            base = rel.split('/')[:-1]
+            base = base[:len(base) - (st.level - 1)]
+        else:
+            base = []
+        parts = base + (st.module.split('.') if st.module else [])
+        for cand in ('/'.join(parts) + '.py', '/'.join(parts + ['__init__.py'])):
+            if cand in self.files:
+                return cand
+        return None
+
+    def exports(self, rel, name, seen=None):
+        """does the top level of file rel bind `name`, explicitly or through (transitive) star imports?"""
+        seen = seen if seen is not None else set()
+        if rel in seen:
+            return False
+        seen.add(rel)
+        if name in self.module_bindings(rel):
+            return True
+        for st in self.tree(rel).body:
+            if isinstance(st, ast.ImportFrom) and any(a.name == '*' for a in st.names):
+                t = self._star_target(rel, st)
+                if t and self.exports(t, name, seen):
+                    return True
+        return False
+
+    def package_rebound_by_star(self, rel, expr):
+        """True if E (or the statement defining its root name) goes through ``P.`` where file rel has a plain
+        ``import P.M`` and a LATER ``from X import *`` whose module (transitively) exports the name P."""
+        tree = self.tree(rel)
+        rebound = set()
+        for st in tree.body:
+            if isinstance(st, ast.Import):
+                for a in st.names:
+                    if '.' in a.name and not a.asname:
+                        pkg = a.name.partition('.')[0]
+                        for st2 in tree.body:
+                            if isinstance(st2, ast.ImportFrom) and st2.lineno > st.lineno and \
+                                    any(x.name == '*' for x in st2.names):
+                                t = self._star_target(rel, st2)
+                                if t and self.exports(t, pkg):
+                                    rebound.add(pkg)
+        if not rebound:
+            return False
+        segment = expr
+        root = re.match(r'[A-Za-z_]\w*', expr)
+        root = root.group(0) if root else None
+        for st in tree.body:
+            if (isinstance(st, ast.FunctionDef) and st.name == root) or \
+                    (isinstance(st, ast.Assign) and any(isinstance(t, ast.Name) and t.id == root for t in st.targets)):
+                segment += '\n' + (ast.get_source_segment(self.files[rel], st) or '')
+        return any(re.search(r'\b%s\.' % re.escape(pkg), segment) for pkg in rebound)
+
     def def_line(self, rel, qualname):
         for n in self.tree(rel).body:
             if isinstance(n, (ast.FunctionDef, ast.ClassDef)) and n.name == qualname:
@@ -415,7 +470,10 @@ def check_query(part, project, root, q, desc, only_attr=None):
 
     part.count('assist_comparisons', len(required))
     if required and not (proposals & set(required)):
-        viol(part, 'no-proposals:%s:via=%s' % (kind, q['via']),
+        why = 'via=%s' % q['via']
+        if not q['insert'] and texts.package_rebound_by_star(q['file'], q['expr']):
+            why = 'package-name-rebound-by-later-star-import'
+        viol(part, 'no-proposals:%s:%s' % (kind, why),
                        'none of the %d required names is proposed at `%s.|` (%s, %s); proposals: %s' % (
                            len(required), q['expr'], kind, q['sub'], sorted(proposals)[:8]),
                        case({'check': 'assist', 'required': sorted(required)}))
